@@ -35,6 +35,13 @@ def gen_leaf(rng, common, kinds, leaf_kind=None, small=False):
             s["terms"][k][0][j] += int(gen.choice(rng, [66, 70, 130, 260]))
             seen = set()
             s["terms"] = [t for t in s["terms"] if not (tuple(t[0]) in seen or seen.add(tuple(t[0])))]
+            if kind == "int" and rng.random() < .5:
+                # ... together with a 64-bit coefficient that no double can hold (the fallback path must stay in integers)
+                t = s["terms"][int(rng.integers(len(s["terms"])))]
+                t[1][int(rng.integers(len(t[1])))] = int(2 ** int(rng.integers(54, 59)) + 1) * int(gen.choice(rng, [1, -1]))
+        elif r < 0.24 and s["terms"] and kind == "int":
+            t = s["terms"][int(rng.integers(len(s["terms"])))]
+            t[1][int(rng.integers(len(t[1])))] = int(2 ** int(rng.integers(54, 59)) + 1) * int(gen.choice(rng, [1, -1]))
     else:
         if lk == "scalar":
             shape = ()
